@@ -143,3 +143,7 @@ PROPS = {
                  "case = decode(force_metadata_checks=1) on survivors S with damaged subset B (payload bit flip under CRC32, or re-sealed header edit: idx out of range, backend id, backend version, newer library version); "
                  "oracle = original bytes required iff S minus B within tolerance, otherwise error or exact original; never other bytes; non-trivial = B non-empty; distinct = (config, S, B, first damage kind)"),
 }
+
+# thorough tier: number of seeds the whole workload is repeated under (see check.py)
+for _p, _n in {"C05": 3, "C07": 8, "C08": 3, "C09": 10, "C10": 10, "C11": 12, "C12": 12, "C13": 6, "C15": 5, "C16": 3, "C17": 10, "C18": 8, "C20": 16, "C02": 2}.items():
+    PROPS[_p]["thorough_seeds"] = _n
